@@ -144,6 +144,7 @@ type res =
 | REmpty
 | RDisc
 | RTimeout
+| RCancel
 
 type spc =
 | SIdle
@@ -219,7 +220,7 @@ type action =
 | CloneRx of nat * nat
 | DropRx of nat
 | RStep of nat
-| Fire of nat
+| Fire of nat * bool
 | Send of nat
 | CloneTx of nat * nat
 | DropTx of nat
